@@ -200,12 +200,17 @@ func (h *Hist) handleCrash(n *sim.Node, crashed bool) {
 func (h *Hist) reboot(n *sim.Node, deliverBeforeRecover bool) {
 	// the chains keep moving while the node is down
 	down := []uint32{0, 0, 0, 1, 3, 30}
+	chain := h.Cfg.Chains[0]
 	if h.Cfg.BigMines || h.Cfg.Eager {
-		// a long downtime: a csv (1008, legacy Liquid 60, Liquid 10080) matures while the node is away
-		down = append(down, 61, 1009, 10081)
+		// a long downtime: the csv of that chain (1008, Liquid 10080, legacy Liquid 60) matures while the
+		// node is away
+		chain = rapid.SampledFrom(h.Cfg.Chains).Draw(h.T, "downChain")
+		down = append(down, 61, csvFor(chain)+1, csvFor(chain)+1)
 	}
 	if db := rapid.SampledFrom(down).Draw(h.T, "blocksWhileDown"); db > 0 {
-		chain := rapid.SampledFrom(h.Cfg.Chains).Draw(h.T, "downChain")
+		if !(h.Cfg.BigMines || h.Cfg.Eager) {
+			chain = rapid.SampledFrom(h.Cfg.Chains).Draw(h.T, "downChain")
+		}
 		h.W.Mine(chain, db)
 		h.opf("mine-while-down(%s,%d)", chain, db)
 		h.class("blocks-while-down")
@@ -440,6 +445,32 @@ func (h *Hist) actFault() {
 	n.Faults[call] = q
 	h.opf("fault(%s,%s,kind=%d,skip=%d,n=%d)", n.Name, call, kind, skip, cnt)
 	h.class("fault:" + call)
+}
+
+// actMakerDown: a maker whose opening output is unspent is down for longer than the csv (or just short of
+// it) and comes back.
+func (h *Hist) actMakerDown() {
+	for _, n := range h.nodes() {
+		if !h.alive(n) {
+			continue
+		}
+		for _, o := range n.Openings {
+			c := h.W.Chains[o.Chain]
+			if c.Spender(o.TxID, o.Vout) != "" {
+				continue
+			}
+			blocks := o.Params.CSV + 1
+			if rapid.IntRange(0, 3).Draw(h.T, "downJustShort") == 0 {
+				blocks = o.Params.CSV - 2
+			}
+			h.opf("maker-down(%s,%s,%d blocks)", n.Name, o.Chain, blocks)
+			h.class("maker-down-past-csv")
+			n.Kill()
+			h.W.Mine(o.Chain, blocks)
+			h.reboot(n, false)
+			return
+		}
+	}
 }
 
 // actHeightLag: the node's chain back-end answers its next height queries with a tip below the true one.
@@ -729,6 +760,9 @@ func (h *Hist) stdActions() map[string]func() {
 	}
 	if h.Cfg.HeightLags {
 		m["heightlag"] = h.actHeightLag
+	}
+	if h.Cfg.Eager {
+		m["makerdown"] = h.actMakerDown
 	}
 	if h.Cfg.Timeouts {
 		m["timeout"] = h.actTimeout
